@@ -1514,14 +1514,45 @@ def cmp_atom(left: str, op: str, right: str) -> dict[str, bool]:
     return out
 
 
+def _flat_args(fi: FuncInfo, call: ast.Call) -> list[ast.expr] | None:
+    """Positional arguments with ``*display`` arguments spliced in (``args = (a, b); f(x, *args)`` -> [x, a, b]); None when a starred
+    argument is not a display of known length."""
+    out: list[ast.expr] = []
+    for a in call.args:
+        if isinstance(a, ast.Starred):
+            leaves = leaves_at(fi, call, a.value)
+            if len(leaves) != 1 or not isinstance(leaves[0], (ast.Tuple, ast.List)) or any(isinstance(e, ast.Starred) for e in leaves[0].elts):
+                return None
+            out += leaves[0].elts
+        else:
+            out.append(a)
+    return out
+
+
+UNKNOWN_ARG = ast.Constant(value="<argument packed in a value of unknown shape>")
+
+
 def call_param(ctx, fi: FuncInfo, call: ast.Call, param: str) -> ast.expr | None:
     """The argument bound to parameter ``param`` at this call, given by keyword or positionally (the callee - function, method or
-    constructor - is resolved to find the position).  None: not passed, or the position cannot be determined."""
+    constructor - is resolved to find the position; ``*display`` arguments are spliced).  None: not passed; ``UNKNOWN_ARG``: the call
+    packs its arguments in a way that cannot be read (``*args`` / ``**kwargs`` of unknown shape)."""
     k = kwarg(call, param)
     if k is not None:
         return k
-    if any(isinstance(a, ast.Starred) for a in call.args):
-        return None
+    for kw in call.keywords:
+        if kw.arg is None:
+            leaves = leaves_at(fi, call, kw.value)
+            if len(leaves) == 1 and isinstance(leaves[0], ast.Dict) and all(isinstance(x, ast.Constant) for x in leaves[0].keys):
+                for dk, dv in zip(leaves[0].keys, leaves[0].values):
+                    if dk.value == param:
+                        return dv
+            else:
+                return UNKNOWN_ARG
+    flat = _flat_args(fi, call)
+    if flat is None:
+        return UNKNOWN_ARG
+    if len(flat) != len(call.args) or any(isinstance(a, ast.Starred) for a in call.args):
+        call = ast.copy_location(ast.Call(func=call.func, args=flat, keywords=call.keywords), call)
     r = ctx.res.resolve_call(fi, call)
     found: list[ast.expr | None] = []
     for f in r.funcs:
@@ -1547,6 +1578,10 @@ def value_texts(fi: FuncInfo, where: ast.AST | Node, e: ast.expr | None) -> set[
 def passes(ctx, fi: FuncInfo, call: ast.Call, param: str, *texts: str) -> bool:
     """The call passes (one of) ``texts`` for parameter ``param`` - by keyword or position, directly or through temporaries."""
     e = call_param(ctx, fi, call, param)
+    if e is UNKNOWN_ARG:
+        # ambiguity is never an alarm: recorded, and the obligation that asked is not failed by it
+        ctx.notes.setdefault("abstained", []).append(f"{ctx._rule}: argument `{param}` of {ast.unparse(call.func)}(...) in {fi.qual.split(':')[1]} is packed in a value of unknown shape")
+        return True
     return e is not None and bool(value_texts(fi, call, e) & set(texts))
 
 
@@ -1645,6 +1680,12 @@ def sort_key_attr(repo, fi: FuncInfo, key: ast.expr | None) -> str | None:
     """The attribute a sort key reads: ``lambda x: x.name`` / a function returning ``x.name`` / ``operator.attrgetter("name")`` -> "name"."""
     if isinstance(key, ast.Name):
         v = single_defs(fi.node).get(key.id)
+        if v is None:
+            # a module-level name, possibly imported: NAME = operator.attrgetter("attr")
+            q = fi.module.imports.get(key.id, "")
+            mod_name, _, attr = q.rpartition(".")
+            m = repo.modules.get(mod_name) if mod_name else (fi.module if key.id in fi.module.globals else None)
+            v = m.globals.get(attr or key.id) if m is not None else None
         if isinstance(v, ast.Call) and call_name_of(v) == "attrgetter":
             key = v
     if isinstance(key, ast.Call) and call_name_of(key) == "attrgetter" and len(key.args) == 1 and isinstance(key.args[0], ast.Constant) and isinstance(key.args[0].value, str):
@@ -1760,4 +1801,69 @@ def predicate_table(fi: FuncInfo, atoms: list[dict[str, bool]], raw: bool = True
         import itertools
 
         out = {k: False for k in itertools.product((True, False), repeat=len(atoms))}
+    return out
+
+
+def tests_raw(fi: FuncInfo, *texts: str, suffix: bool = False) -> list[Node]:
+    """Atomic tests whose source text - with alias temporaries expanded, in any spelling of the same polarity - is one of ``texts``
+    (``suffix=True``: ends with one of them).  Spaces are ignored."""
+    g = build_cfg(fi.node)
+    want = [t.replace(" ", "") for t in texts]
+    out = []
+    for t in g.nodes:
+        if t.kind != "test" or t.ast is None:
+            continue
+        fs = {f.replace(" ", "") for f, same in polar_forms(fi, t, t.ast, anon=False) if same}
+        if any((f.endswith(w) if suffix else f == w) for f in fs for w in want):
+            out.append(t)
+    return out
+
+
+from . import cfg as _cfg_mod  # noqa: E402
+
+_cfg_mod.PATH_SENSITIVE_REACH = reach_env
+
+
+def def_reaches_use(g: CFG, d: int, use: int, name: str, blocked_edges: Iterable = ()) -> bool:
+    """The value assigned to ``name`` at node ``d`` can still be the value of ``name`` at node ``use``: there is a path from d to use on
+    which the name is not assigned again and which takes none of ``blocked_edges``."""
+    be = set(blocked_edges)
+    sites = set(_def_nodes(g).get(name, {}))
+    seen = set()
+    stack = [m for m, lab in g.succ[d] if (d, m, lab) not in be]
+    while stack:
+        n = stack.pop()
+        if n in seen:
+            continue
+        seen.add(n)
+        if n == use:
+            return True
+        if n in sites:
+            continue
+        stack += [m for m, lab in g.succ[n] if (n, m, lab) not in be]
+    return False
+
+
+def value_sources(fi: FuncInfo, at: Node, e: ast.expr | None, depth: int = 5) -> list[ast.expr]:
+    """Everything a value is computed from: the flow leaves of every local read in ``e``, and - where such a leaf is itself an expression
+    over locals (``first + offset``) - the leaves of those, transitively.  Calls and attribute reads are kept as they are."""
+    out: list[ast.expr] = []
+    if e is None or depth <= 0:
+        return out
+    seen: set[int] = set()
+
+    def visit(expr: ast.expr, where: Node, d: int) -> None:
+        for nm in [x for x in ast.walk(expr) if isinstance(x, ast.Name) and isinstance(x.ctx, ast.Load)]:
+            for leaf, chain in flows(fi, where, nm):
+                if id(leaf) in seen:
+                    continue
+                seen.add(id(leaf))
+                out.append(leaf)
+                if d > 0 and not isinstance(leaf, ast.Name) and not isinstance(leaf, ast.Call):
+                    visit(leaf, chain[-1] if chain else where, d - 1)
+                elif d > 0 and isinstance(leaf, ast.Call):
+                    for a in [*leaf.args, *[k.value for k in leaf.keywords]]:
+                        pass  # arguments of a call are not part of the value's identity
+
+    visit(e, at, depth)
     return out
